@@ -23,6 +23,7 @@ META = {
     "assumptions": ["values are real numbers; rounding is out of scope here (see C20)"],
 }
 META["explanation"] += ' Also COPY, partial / external writes of tracker state, derived constants next to a public parameter, iterables walked twice, process-wide NumPy error mode; the parts of the Welford state are identified by use; INPUT: no state field is the input object itself.'
+META["explanation"] += ' HAZARD: constructs that do not mean what they look like, met in the analysed code (defaults evaluated once, class-level containers changed through self, dict.fromkeys with a shared mutable value, late-binding lambdas, truth value of objects that define __len__) are reported by every check.'
 MIN_INSTANCES = {"INDUCT": 12, "COUNT": 2, "RANGE": 1, "COPY": 2}
 
 P = lambda s: ("param", s)
